@@ -39,6 +39,7 @@ package session
 //@   method SetSeqNum(storageID fix.StorageID, seqNum int) (err error):
 //@     modifies self.*, gOut(self), gIn(self)
 //@     ensures[C10] imp(err == nil && storageID.Side == fix.Incoming, cIn(self) == seqNum && cOut(self) == old(cOut(self)))
+//@     ensures[C10,C05] imp(err != nil, cIn(self) == old(cIn(self)) && cOut(self) == old(cOut(self)))
 
 // stored(ms, k): the message saved under sequence number k (ghost for foreign stores)
 //@ ghostfield gStored map
@@ -87,6 +88,8 @@ package session
 
 // ---- session state -----------------------------------------------------------------
 //@ field[C20] Session.state: guarded_by(stateMu)
+//@ callguard[C05] Session.counter.GetNextSeqNum: mu
+//@ callguard[C05] Session.Router.Send: mu
 //@ field Session.LogonHandler: callback(pure)
 //@ field Session.errorHandler: callback(pure)
 //@ field Session.logonRequest: callback(pure)
@@ -146,7 +149,8 @@ package session
 //@   requires sessWF(s) && msg != nil && hdr(msg) != nil
 //@   requires[C07] @permitted everLogged || allowedBeforeLogon(msg)
 //@   modifies sentN, sentAt, sendFailed, clock, s.counter.*, gOut(s.counter), gIn(s.counter), hSeq(hdr(msg)), hSender(hdr(msg)), hTarget(hdr(msg)), hTime(hdr(msg))
-//@   ensures[C06,C14,C15,C16,C07,C10] @sentorfailed (sentN == old(sentN) + 1 && sentAt == upd(old(sentAt), old(sentN), msg) && sendFailed == old(sendFailed)) || (sentN == old(sentN) && sentAt == old(sentAt) && sendFailed)
+//@   ensures[C06,C14,C15,C16,C07,C10,C05] @sentorfailed (sentN == old(sentN) + 1 && sentAt == upd(old(sentAt), old(sentN), msg) && sendFailed == old(sendFailed) && hSender(hdr(msg)) == s.LogonSettings.SenderCompID && hTarget(hdr(msg)) == s.LogonSettings.TargetCompID) || (sentN == old(sentN) && sentAt == old(sentAt) && sendFailed)
+//@   ensures[C05] @numbers imp(!sendFailed, cOut(s.counter) == old(cOut(s.counter)) + 1) && imp(sentN == old(sentN) && !old(sendFailed), true)
 //@   ensures[C06,C07] @stable s.state == old(s.state)
 
 // ---- rejects (C16) ---------------------------------------------------------------------
@@ -166,6 +170,7 @@ package session
 //@   requires sessWF(s)
 //@   modifies sentN, sentAt, sendFailed, clock, s.counter.*, gOut(s.counter), gIn(s.counter)
 //@   ensures[C16,C06,C14,C15] @one imp(!sendFailed, sentN == old(sentN) + 1 && rejectFor(s, sel(sentAt, old(sentN)), string(msg)))
+//@   ensures[C05] @numbers imp(!sendFailed, cOut(s.counter) - old(cOut(s.counter)) == sentN - old(sentN))
 //@   ensures[C16,C06,C14,C15] @atmost imp(sendFailed && !old(sendFailed), sentN == old(sentN) && sentAt == old(sentAt))
 //@   forall j int
 //@   ensures[C16,C06,C14,C15,C10] @earlier imp(j < old(sentN), sel(sentAt, j) == old(sel(sentAt, j)))
@@ -181,6 +186,7 @@ package session
 //@   ensures[C14] @echo imp(!sendFailed && perr == nil && old(s.state) == SuccessfulLogged, sentN == old(sentN) + 1 && mrole(sel(sentAt, old(sentN))) == 4 && mTestReqID(sel(sentAt, old(sentN))) == fieldOf(string(data), 112))
 //@   ensures[C16] @rejected imp(!sendFailed && (perr != nil || old(s.state) != SuccessfulLogged), sentN == old(sentN) + 1 && rejectFor(s, sel(sentAt, old(sentN)), string(data)))
 //@   ensures[C16] @stable s.state == old(s.state)
+//@   ensures[C05] @numbers imp(!sendFailed, cOut(s.counter) - old(cOut(s.counter)) == sentN - old(sentN))
 
 // ---- Heartbeat (C16) --------------------------------------------------------------------
 //@ closure (*Session).Run#Heartbeat (data []byte) (ok bool)
@@ -192,6 +198,7 @@ package session
 //@   ensures[C16] @rejected imp(!sendFailed && (perr != nil || old(s.state) != SuccessfulLogged), sentN == old(sentN) + 1 && rejectFor(s, sel(sentAt, old(sentN)), string(data)))
 //@   ensures[C16,C07] @silent imp(perr == nil && old(s.state) == SuccessfulLogged, sentN == old(sentN) && sentAt == old(sentAt))
 //@   ensures[C16] @stable (s.state == SuccessfulLogged) == (old(s.state) == SuccessfulLogged)
+//@   ensures[C05] @numbers imp(!sendFailed, cOut(s.counter) - old(cOut(s.counter)) == sentN - old(sentN))
 
 // ---- Logout (C15, C16) --------------------------------------------------------------------
 //@ closure (*Session).Run#Logout (data []byte) (ok bool)
@@ -207,6 +214,7 @@ package session
 //@   ensures[C16] @rejected imp(!sendFailed && (perr != nil || (old(s.state) != SuccessfulLogged && old(s.state) != WaitingLogoutAnswer)), sentN == old(sentN) + 1 && rejectFor(s, sel(sentAt, old(sentN)), string(data)))
 //@   ensures[C16] @stable_on_error imp(perr != nil, s.state == old(s.state))
 //@   ensures[C16] @stable imp(old(s.state) != SuccessfulLogged, s.state != SuccessfulLogged)
+//@   ensures[C05] @numbers imp(!sendFailed, cOut(s.counter) - old(cOut(s.counter)) == sentN - old(sentN))
 
 // ---- Logon (C06, C07, C16) ---------------------------------------------------------------
 //@ func (s *Session) checkLogonParams(incoming messages.LogonBuilder) (ok bool, tag int, reasonCode int)
@@ -231,6 +239,7 @@ package session
 //@   call GetCurrSeqNum#1: witness cerr = ret1
 //@   forall j int
 //@   ensures[C10,C06] @earlier imp(j < old(sentN), sel(sentAt, j) == old(sel(sentAt, j)))
+//@   ensures[C05] @numbers imp(!sendFailed, cOut(s.counter) - old(cOut(s.counter)) == sentN - old(sentN))
 //@   ensures[C10,C06] @bounded sentN >= old(sentN) && sentN <= old(sentN) + 1 && (sendFailed == old(sendFailed) || sendFailed)
 //@   ensures[C10] @gap imp(!sendFailed && cerr == nil && curr + 1 < hSeq(hdr(incomingLogon)), sentN == old(sentN) + 1 && mrole(sel(sentAt, old(sentN))) == 6 && mBeginSeqNo(sel(sentAt, old(sentN))) == curr + 1 && mEndSeqNo(sel(sentAt, old(sentN))) == 0)
 //@   ensures[C10,C06] @nogap imp(cerr != nil || curr + 1 >= hSeq(hdr(incomingLogon)), sentN == old(sentN) && sentAt == old(sentAt))
@@ -256,6 +265,9 @@ package session
 //@   ensures[C06,C16] @again imp(!sendFailed && perr == nil && old(s.state) == SuccessfulLogged, s.state == SuccessfulLogged && sentN == old(sentN) + 1 && mrole(sel(sentAt, old(sentN))) == 3 && mRefSeqNum(sel(sentAt, old(sentN))) == hSeq(hdr(inc)))
 //@   ensures[C07] @timers imp(timersStarted && !old(timersStarted), s.state == SuccessfulLogged)
 //@   ensures[C06] @initiator imp(perr == nil && old(s.state) == WaitingLogonAnswer, s.state == SuccessfulLogged)
+//@   ensures[C05] @numbers imp(!sendFailed, cOut(s.counter) - old(cOut(s.counter)) == sentN - old(sentN))
+//@   ensures[C05] @mirrored imp(!sendFailed && perr == nil && old(s.state) == WaitingLogon && s.side == sideAcceptor && sentN > old(sentN), hSender(hdr(sel(sentAt, old(sentN)))) == hTarget(hdr(inc)) && hTarget(hdr(sel(sentAt, old(sentN)))) == hSender(hdr(inc)))
+//@   ensures[C06] @limits s.LogonSettings != nil && s.LogonSettings.HeartBtLimits == old(s.LogonSettings.HeartBtLimits)
 //@   ensures[C06] @otherstates imp(perr == nil && old(s.state) != WaitingLogon && old(s.state) != WaitingLogonAnswer && old(s.state) != SuccessfulLogged, s.state == old(s.state) && sentN == old(sentN))
 
 // ---- stored messages and retransmission (C10, C07, C16, C19) -----------------------------
@@ -290,6 +302,7 @@ package session
 //@   ensures[C10] @count imp(served, resentN == old(resentN) + last - mBeginSeqNo(req) + 1)
 //@   ensures[C10] @exact imp(served && mBeginSeqNo(req) <= j && j <= last, sel(resentAt, old(resentN) + j - mBeginSeqNo(req)) == sel(gStored(s.messageStorage), j))
 //@   ensures[C10] @nothingelse imp(perr == nil && merr != nil, resentN == old(resentN))
+//@   ensures[C05] @numbers imp(!sendFailed, cOut(s.counter) - old(cOut(s.counter)) == sentN - old(sentN))
 //@   ensures[C10] @toend imp(perr == nil && old(s.state) == SuccessfulLogged && cerr == nil && berr == nil && mEndSeqNo(req) == 0 && 1 <= mBeginSeqNo(req) && mBeginSeqNo(req) <= cOut(s.counter) && allStored(gHas(s.messageStorage), mBeginSeqNo(req), cOut(s.counter)), resentN == old(resentN) + cOut(s.counter) - mBeginSeqNo(req) + 1)
 //@   ensures[C16] @stable s.state == old(s.state)
 
@@ -298,8 +311,11 @@ package session
 //@   requires sessWF(s) && sessInv(s) && !sendFailed
 //@   requires[C07] everLogged
 //@   modifies sentN, sentAt, sendFailed, clock, s.counter.*, gOut(s.counter), gIn(s.counter), s.state, everLogged, trigN, trigAt, routerStopped, timersStarted
+//@   call sendWithErrorCheck#1:
+//@     assert[C15] @statefirst s.state == WaitingLogoutAnswer
 //@   ensures[C15] err == nil && s.state == WaitingLogoutAnswer
 //@   ensures[C15] @one imp(!sendFailed, sentN == old(sentN) + 1 && mrole(sel(sentAt, old(sentN))) == 2)
+//@   ensures[C05] @numbers imp(!sendFailed, cOut(s.counter) - old(cOut(s.counter)) == sentN - old(sentN))
 
 // Stop: sends a Logout, arms the close timeout, and leaves a handler registered
 // that cancels the context as soon as the peer's Logout answer is signalled
@@ -310,7 +326,9 @@ package session
 //@   modifies sentN, sentAt, sendFailed, clock, s.counter.*, gOut(s.counter), gIn(s.counter), s.state, everLogged, trigN, trigAt, routerStopped, timersStarted, s.eventHandler.pool, MAP
 //@   call AfterFunc#1:
 //@     assert[C15] @deadline arg0 == s.LogonSettings.CloseTimeout
+//@     witness deadlineArmed = reached
 //@   ensures[C15] @logout imp(!sendFailed, sentN == old(sentN) + 1 && mrole(sel(sentAt, old(sentN))) == 2)
+//@   ensures[C15] @armed imp(err == nil, deadlineArmed)
 //@   ensures[C15] @answerhandler imp(err == nil, s.eventHandler.pool != nil && mhas(s.eventHandler.pool, utils.EventLogout) && len(mget(s.eventHandler.pool, utils.EventLogout)) >= 1)
 
 // ---- initiating side (C06) ----------------------------------------------------------------
@@ -326,3 +344,24 @@ package session
 //@   ensures[C06] @notlogged s.state != SuccessfulLogged
 //@   ensures[C06] @firstmessage imp(s.side == sideInitiator && !sendFailed, sentN == old(sentN) + 1 && mrole(sel(sentAt, old(sentN))) == 1 && mHeartBtInt(sel(sentAt, old(sentN))) == s.LogonSettings.HeartBtInt && mEncrypt(sel(sentAt, old(sentN))) == s.LogonSettings.EncryptMethod)
 //@   ensures[C06,C07] @acceptorsilent imp(s.side != sideInitiator, sentN == old(sentN) && sentAt == old(sentAt))
+
+// ---- hooks registered for every message (C10, C14, C16, C09) ---------------------------------
+// sequence hook: once the logon exchange is over, the incoming counter follows the
+// peer's numbers; during the exchange it is left alone (processIncSeq compares it)
+//@ closure (*Session).setStorageCallbacks#seq (msg []byte) (ok bool)
+//@   anchor SetSeqNum
+//@   requires sessWF(s)
+//@   modifies s.counter.*, gOut(s.counter), gIn(s.counter)
+//@   call SetSeqNum#1: witness seterr = ret
+//@   ensures[C10] @notduringlogon imp(old(s.state) == WaitingLogon || old(s.state) == WaitingLogonAnswer, cIn(s.counter) == old(cIn(s.counter)) && ok)
+//@   ensures[C16] @continues imp(seterr == nil, ok)
+//@   ensures[C05] @outgoing cOut(s.counter) == old(cOut(s.counter))
+
+// liveness hook of start(): any inbound message refreshes the timer and ends a pending probe
+//@ closure (*Session).start#inhook (msg []byte) (ok bool)
+//@   anchor Refresh changeState
+//@   requires s != nil && s.eventHandler != nil
+//@   modifies s.state, everLogged, trigN, trigAt, routerStopped, timersStarted, clock, utils.Timer.lastUpdate
+//@   ensures[C14,C09,C16] @continues ok
+//@   ensures[C14,C09] @probeanswered imp(old(s.state) == WaitingTestReqAnswer, s.state == SuccessfulLogged)
+//@   ensures[C16,C09] @otherwise imp(old(s.state) != WaitingTestReqAnswer, s.state == old(s.state))
